@@ -918,6 +918,21 @@ fn run_bundle<P: Payload + Clone>(ctx: &Ctx, b: &Bundle, prefix: &Option<Vec<Cal
         if s2.arena != sim.arena || s2.ids != sim.ids {
             st.violation(keep, Finding { prop: "C13".into(), kind: "determinism".into(), detail: "replaying the same calls on a second new arena gives a different arena or different ids".into(), case: case_json(b, prefix, None, json!(sim.proj()), json!(s2.proj())) });
         }
+        // "with_capacity(n) and reserve(k) ... change nothing observable": the same calls on a plain Arena::new() give an arena
+        // that compares equal (==, both ways) and the same ids. Origins that went through clear() are left out: for them the
+        // property speaks of behaviour only (section C13), and that is what the rest of this mode compares.
+        let plain_origin = ctx.opts.with_capacity > 0 || (ctx.opts.origin_mix && ![0, 4, 7].contains(&(ctx.bundle_idx % 8)));
+        if plain_origin && prefix.is_none() {
+            st.check("C13", 1);
+            let mut s3: Sim<P> = Sim::new();
+            for c in &b.path {
+                s3.apply(c);
+            }
+            let same = std::panic::catch_unwind(std::panic::AssertUnwindSafe(|| s3.arena == sim.arena && sim.arena == s3.arena && s3.ids == sim.ids)).unwrap_or(false);
+            if !same && s3.proj() == sim.proj() {
+                st.violation(keep, Finding { prop: "C13".into(), kind: "origin-not-equal".into(), detail: "the same calls on Arena::new() and on an arena that was pre-sized (with_capacity / reserve / default / clone of an empty arena) give arenas with the same links, flags and payloads that do not compare equal (==) or different ids".into(), case: case_json(b, prefix, None, json!(s3.proj()), json!(sim.proj())) });
+            }
+        }
         // and the original was not disturbed by anything done to its clones
         if sim.proj() != base {
             st.violation(keep, Finding { prop: "C13".into(), kind: "clone-independence".into(), detail: "calls applied to clones changed the original".into(), case: case_json(b, prefix, None, json!(base), json!(sim.proj())) });
